@@ -1,3 +1,4 @@
 import LJT.Props.C19
 import LJT.Props.C20
+import LJT.Props.C13
 import LJT.Ops.C19
